@@ -1453,10 +1453,15 @@ struct HelperAttributeForDefault {
 impl HelperAttributeForDefault {
     fn from_attrs(attrs: &[Attribute]) -> Result<Option<Self>> {
         if let Some(args) = parse_single::<ArgsForDefault>(attrs, "default")? {
-            let value = if args.value == parse_quote!(_) {
+            // a value handed in through a `macro_rules!` fragment arrives in an invisible group
+            let mut value = args.value;
+            while let Expr::Group(g) = value {
+                value = *g.expr;
+            }
+            let value = if value == parse_quote!(_) {
                 None
             } else {
-                Some(args.value)
+                Some(value)
             };
             Ok(Some(Self {
                 value,
